@@ -47,6 +47,7 @@ from redress.errors import (  # noqa: E402
 from redress.policy.decorator import retry as retry_decorator  # noqa: E402
 from redress.policy.types import RetryOutcome, RetryTimeline  # noqa: E402
 from redress.sleep import SleepDecision  # noqa: E402
+from redress.policy.types import AttemptDecision  # noqa: E402
 
 CLASSES = ["AUTH", "PERMISSION", "PERMANENT", "CONCURRENCY", "RATE_LIMIT", "SERVER_ERROR",
            "TRANSIENT", "UNKNOWN"]
@@ -491,7 +492,8 @@ class Env:
             str(c.attempt), str(to_ticks(c.elapsed_s)),
             opt(cl, lambda x: x.klass.name),
             opt(None if cl is None else cl.retry_after_s, lambda x: str(to_ticks(x))),
-            opt(c.exception, exn_ref), opt(c.result, lambda v: str(v.vid)),
+            opt(c.exception, exn_ref),
+            ("0" if c.result is None and c.decision is AttemptDecision.SUCCESS else opt(c.result, lambda v: str(v.vid))),
             opt(c.decision, lambda d: d.value), opt(c.stop_reason, lambda s: s.value),
             opt(c.cause), opt(c.sleep_s, lambda x: str(to_ticks(x)))])
 
@@ -512,6 +514,8 @@ class Env:
     def _val(self, vid: int) -> "Val":
         """Same token => same value OBJECT (an operation may hand back the object it returned before)."""
         cache = self.__dict__.setdefault("_val_cache", {})
+        if vid == 0:
+            return None                   # token 0 is Python's None
         v = cache.get(vid)
         if v is None:
             v = cache[vid] = Val(vid)
@@ -552,7 +556,7 @@ class Env:
         return self._classification(a)
 
     def result_classifier(self, val: Any):
-        a = self.ask(f"resultClassify {val.vid}", "resultClassify")
+        a = self.ask(f"resultClassify {0 if val is None else val.vid}", "resultClassify")
         self._raise_or(a)
         if a.kind == "noFailure":
             return None
@@ -844,7 +848,15 @@ def build(env: Env, cfg: LoopCfg) -> Built:
         target = P(retry=retry, circuit_breaker=breaker)
         return Built(target, budget, breaker, call_kwargs, ("pcall", "pexecute"))
     if cfg.kind == "RetryPolicy":
-        target = RP(**retry_kwargs)
+        if env.wall_seed_bits & 16:
+            # the same configuration, but sleep / before_sleep / sleeper assigned through the wrapper AFTER
+            # construction (RetryPolicy.__setattr__ must forward them to the Retry component)
+            late = {k: retry_kwargs[k] for k in ("sleep", "before_sleep", "sleeper") if retry_kwargs.get(k) is not None}
+            target = RP(**{k: (None if k in late else v) for k, v in retry_kwargs.items()})
+            for k, v in late.items():
+                setattr(target, k, v)
+        else:
+            target = RP(**retry_kwargs)
         return Built(target, budget, breaker, call_kwargs, ("pcall", "pexecute"))
     if cfg.kind == "decorator":
         # hooks are fixed at decoration time; only call() exists
@@ -886,7 +898,7 @@ def drive(coro, env: Env):
 
 def outcome_toks(o: RetryOutcome) -> str:
     return " ".join([
-        "outcome", "1" if o.ok else "0", opt(o.value, lambda v: str(v.vid)),
+        "outcome", "1" if o.ok else "0", ("0" if o.ok and o.value is None else opt(o.value, lambda v: str(v.vid))),
         opt(o.stop_reason, lambda s: s.value), str(o.attempts), opt(o.last_class, lambda k: k.name),
         opt(o.last_exception, exn_ref), opt(o.last_result, lambda v: str(v.vid)), opt(o.cause),
         str(to_ticks(o.elapsed_s)), opt(o.next_sleep_s, lambda s: str(to_ticks(s)))])
@@ -938,7 +950,11 @@ def run_step(env: Env, built: Built, cfg: LoopCfg, which: str) -> StepResult:
             r = built.target.call(func, **kwargs)
         else:
             if cfg.has("timeline") and not cfg.has("no_retry"):
-                kwargs["capture_timeline"] = True
+                # either the flag or a caller-owned RetryTimeline (which must then be the one that is filled
+                # and handed back as outcome.timeline)
+                own = RetryTimeline() if (env.wall_seed_bits & 8) else None
+                kwargs["capture_timeline"] = own if own is not None else True
+                notes["own_timeline"] = own
             r = built.target.execute(func, **kwargs)
         if is_async:
             r = drive(r, env)
@@ -955,11 +971,17 @@ def run_step(env: Env, built: Built, cfg: LoopCfg, which: str) -> StepResult:
                 tb = tb.tb_next
             tb_ok = any(n in ("op", "aop") for n in names)
         notes["tb_ok"] = tb_ok
+        notes.pop("own_timeline", None)
         return StepResult(entry, "raise " + exn_tok(e), [], notes)
     if isinstance(r, RetryOutcome):
+        own = notes.pop("own_timeline", None)
+        if own is not None and r.timeline is not None and r.timeline is not own:
+            return StepResult(entry, outcome_toks(r) + " foreign-timeline", timeline_lines(r), notes)
         return StepResult(entry, outcome_toks(r), timeline_lines(r), notes)
     if isinstance(r, Val):
         return StepResult(entry, f"ret {r.vid}", [], notes)
+    if r is None:
+        return StepResult(entry, "ret 0", [], notes)
     return StepResult(entry, f"unexpected-return {r!r}", [], notes)
 
 
